@@ -4,7 +4,7 @@ from fractions import Fraction
 from ..common import rng
 from ..drivers import behaviours
 from ..drivers import programs, targeted
-from ._twin import replay_programs, run_programs
+from ._twin import replay_programs, run_programs, run_suite
 
 
 def check(run, tier):
@@ -43,6 +43,9 @@ def check(run, tier):
         run.extra["model_behaviours_replayed"] += len(mprogs)
         progs += mprogs
     run_programs(run, progs)
+
+    # the repository's own test-suite, recorded and judged step by step
+    run_suite(run)
 
 
 def replay(run, rp):
